@@ -305,7 +305,9 @@ ExprPre(e, D) ==
        [] e.kind = "simple" -> <<KindTag("simple_expr"), e.name, args>>
        [] e.kind = "value" -> <<KindTag("value_expr"), ArgHashOf(e.pos[1], D)>>
 
-\* the call an expression denotes (option order is not part of it)
+\* the call an expression denotes (option order is not part of it).  EffOpts holds <<name, value>>
+\* pairs, also of the exported options: the VALUE of an exported option is part of the denoted call,
+\* EffExports only adds which names are inherited by child jobs.
 RECURSIVE Denote(_), ArgDenote(_)
 ArgDenote(a) == IF a.k = "atom" THEN <<"atom", a.v>> ELSE <<"expr", Denote(a.e)>>
 Denote(e) ==
